@@ -1,11 +1,19 @@
 from .common import COMMON_ASSUME
 
 CFG = {
+    "extra_props_modules": ["RpmVerif.Props.Pipeline"],
     "props_module": "RpmVerif.Props.C10",
     "required_theorems": ["RpmVerif.C10.run_total", "RpmVerif.C10.history_bytes", "RpmVerif.C10.history_wf", "RpmVerif.C10.writeParse_id",
                           "RpmVerif.C10.first_op_wf", "RpmVerif.C10.history_digests", "RpmVerif.C10.history_verify",
                           "RpmVerif.C10.history_verify_none", "RpmVerif.C10.history_verify_cleared", "RpmVerif.C10.history_keyids",
-                          "RpmVerif.C10.history_keyids_cleared", "RpmVerif.C10.history_initial", "RpmVerif.C10.run_total_any"],
+                          "RpmVerif.C10.history_keyids_cleared", "RpmVerif.C10.history_initial", "RpmVerif.C10.run_total_any",
+                          "RpmVerif.Pipeline.build_metadata_wf", "RpmVerif.Pipeline.build_payload_digest_ok", "RpmVerif.Pipeline.build_unsigned",
+                          "RpmVerif.Pipeline.built_history_total", "RpmVerif.Pipeline.built_history_digests",
+                          "RpmVerif.Pipeline.built_history_verify", "RpmVerif.Pipeline.built_history_verify_none",
+                          "RpmVerif.Pipeline.built_history_keyids", "RpmVerif.Pipeline.built_history_bytes",
+                          "RpmVerif.Pipeline.built_history_reparse", "RpmVerif.Pipeline.build_sign_verifies",
+                          "RpmVerif.Pipeline.build_sign_keyids", "RpmVerif.Pipeline.build_sign_digests",
+                          "RpmVerif.Pipeline.built_package_sound"],
     "trivial_branches": ["start-rejected"],
     "rule": "ALL operation sequences over {sign with RSA-4096, passphrase-protected RSA-3072, Ed25519, ECDSA-P256 (the repo's test keys, "
             "sign_with_timestamp(.., 1_600_000_000)); clear_signatures; write to a buffer + Package::parse} up to length 3 (quick) / 5 (thorough) "
@@ -37,7 +45,11 @@ CFG = {
                   "verify (history_digests); if k signed most recently with no clear since, verify_signature with k' succeeds iff k' = k (history_verify) and "
                   "signature_key_ids is exactly [keyId k] (history_keyids); after a clear, or never signed from an unsigned start, no key verifies and "
                   "signature_key_ids is an error (history_verify_none, history_verify_cleared, history_keyids_cleared). Non-vacuity: the symbolic scheme "
-                  "satisfies all hypotheses (proved), a concrete history is evaluated by the kernel.",
+                  "satisfies all hypotheses (proved), a concrete history is evaluated by the kernel. Pipeline theorems (Props/Pipeline.lean) discharge the "
+                  "start hypotheses for the package PackageBuilder::build returns (build_metadata_wf, build_payload_digest_ok, build_unsigned) and instantiate the "
+                  "history theorems there (built_history_*: build, then any sign / clear / write + re-parse sequence — digests verify after every history incl. the "
+                  "empty one, exactly the last signer's key verifies and is reported, main header and payload byte-identical to the built ones), cover "
+                  "build_and_sign (build_sign_verifies / _keyids / _digests) and bundle everything in built_package_sound.",
     "level_note": "Trusted: Lean kernel; model fidelity as exercised (every record of every enumerated history predicted); the pgp crate behind the SigScheme "
                   "hypotheses (exercised with four real keys, gpgv as independent oracle in the thorough tier); hash crates.",
 }
